@@ -22,13 +22,14 @@ structure Post (s s' : State) (d : Denom) : Prop where
   supply_ne : ∀ d', d' ≠ d → s'.bank.supply d' = s.bank.supply d'
   wf : WF s → WF s'
   nonneg : NonNeg s.bank → NonNeg s'.bank
+  cons : Consistent s.bank → Consistent s'.bank
   mono : ∀ m, s.find d = some m → ∃ m', s'.find d = some m' ∧ m.status ≤ m'.status
   inv : SupplyInvAt s d → SupplyInvAt s' d
   destroyed : ∀ m m', s.find d = some m → s'.find d = some m' → m'.status = .destroyed →
     m.status = .destroyed ∨ Escrowed s d
 
 theorem Post.refl (s : State) (d : Denom) : Post s s d :=
-  ⟨fun _ _ => rfl, fun _ _ => rfl, id, id, fun m hm => ⟨m, hm, status_le_refl _⟩, id,
+  ⟨fun _ _ => rfl, fun _ _ => rfl, id, id, id, fun m hm => ⟨m, hm, status_le_refl _⟩, id,
     fun m m' hm hm' hd => by rw [hm] at hm'; cases hm'; exact Or.inl hd⟩
 
 theorem Post.trans {s s1 s2 : State} {d : Denom} (h1 : Post s s1 d) (h2 : Post s1 s2 d)
@@ -37,6 +38,7 @@ theorem Post.trans {s s1 s2 : State} {d : Denom} (h1 : Post s s1 d) (h2 : Post s
   supply_ne d' hd := (h2.supply_ne d' hd).trans (h1.supply_ne d' hd)
   wf h := h2.wf (h1.wf h)
   nonneg h := h2.nonneg (h1.nonneg h)
+  cons h := h2.cons (h1.cons h)
   mono m hm := by
     obtain ⟨m1, hm1, hle1⟩ := h1.mono m hm
     obtain ⟨m2, hm2, hle2⟩ := h2.mono m1 hm1
@@ -49,11 +51,12 @@ theorem Post.trans {s s1 s2 : State} {d : Denom} (h1 : Post s s1 d) (h2 : Post s
     · exact Or.inr hk
 
 /-- set the record of `d` and replace the bank -/
-theorem Post.of_set_bank {s : State} {m' : Marker} {b : Ledger} {d : Denom}
+theorem Post.of_set_bank {s : State} {m' : Marker} {b : Bank} {d : Denom}
     (hd : m'.denom = d)
     (hmono : ∀ m, s.find d = some m → m.status ≤ m'.status)
     (hframe : ∀ d', d' ≠ d → b.supply d' = s.bank.supply d')
     (hnn : NonNeg s.bank → NonNeg b)
+    (hcs : Consistent s.bank → Consistent b)
     (hinv : SupplyInvAt s d → m'.status = .active → m'.fixed = true → m'.supply = b.supply d)
     (hdes : m'.status = .destroyed → (∀ m, s.find d = some m → m.status = .destroyed) ∨ Escrowed s d) :
     Post s { (s.setMarker m') with bank := b } d where
@@ -63,6 +66,7 @@ theorem Post.of_set_bank {s : State} {m' : Marker} {b : Ledger} {d : Denom}
   supply_ne := hframe
   wf h := wf_setMarker h m'
   nonneg := hnn
+  cons := hcs
   mono m hm := ⟨m', by show (s.setMarker m').find d = some m'; rw [← hd]; exact find_setMarker_self s m', hmono m hm⟩
   inv hi m hm ha hf := by
     have : (s.setMarker m').find d = some m' := by rw [← hd]; exact find_setMarker_self s m'
@@ -80,9 +84,10 @@ theorem Post.of_set_bank {s : State} {m' : Marker} {b : Ledger} {d : Denom}
     · exact Or.inr h
 
 /-- replace the bank only -/
-theorem Post.of_bank {s : State} {b : Ledger} {d : Denom}
+theorem Post.of_bank {s : State} {b : Bank} {d : Denom}
     (hframe : ∀ d', d' ≠ d → b.supply d' = s.bank.supply d')
     (hnn : NonNeg s.bank → NonNeg b)
+    (hcs : Consistent s.bank → Consistent b)
     (hinv : SupplyInvAt s d → ∀ m, s.find d = some m → m.status = .active → m.fixed = true →
       m.supply = b.supply d) :
     Post s { s with bank := b } d where
@@ -90,6 +95,7 @@ theorem Post.of_bank {s : State} {b : Ledger} {d : Denom}
   supply_ne := hframe
   wf h := h
   nonneg := hnn
+  cons := hcs
   mono m hm := ⟨m, hm, status_le_refl _⟩
   inv hi m hm ha hf := hinv hi m hm ha hf
   destroyed m m' hm hm' hd := by
@@ -103,7 +109,7 @@ theorem Post.of_set {s : State} {m' : Marker} {d : Denom}
     (hinv : SupplyInvAt s d → m'.status = .active → m'.fixed = true → m'.supply = s.bank.supply d)
     (hdes : m'.status = .destroyed → (∀ m, s.find d = some m → m.status = .destroyed) ∨ Escrowed s d) :
     Post s (s.setMarker m') d :=
-  Post.of_set_bank (b := s.bank) hd hmono (fun _ _ => rfl) id hinv hdes
+  Post.of_set_bank (b := s.bank) hd hmono (fun _ _ => rfl) id id hinv hdes
 
 /-- replace the record by one with the same status, supply and fixed flag -/
 theorem Post.of_set_same {s : State} {m m' : Marker} {d : Denom} (hm : s.find d = some m)
@@ -114,10 +120,11 @@ theorem Post.of_set_same {s : State} {m m' : Marker} {d : Denom} (hm : s.find d 
     (fun hdes => Or.inl (fun m0 hm0 => by rw [hm] at hm0; cases hm0; rw [← hs]; exact hdes))
 
 /-- a bank change that leaves every supply unchanged -/
-theorem Post.of_move {s : State} {b : Ledger} {d : Denom}
-    (hsup : ∀ d', b.supply d' = s.bank.supply d') (hnn : NonNeg s.bank → NonNeg b) :
+theorem Post.of_move {s : State} {b : Bank} {d : Denom}
+    (hsup : ∀ d', b.supply d' = s.bank.supply d') (hnn : NonNeg s.bank → NonNeg b)
+    (hcs : Consistent s.bank → Consistent b) :
     Post s { s with bank := b } d :=
-  Post.of_bank (fun d' _ => hsup d') hnn (fun hi m hm ha hf => by rw [hsup]; exact hi m hm ha hf)
+  Post.of_bank (fun d' _ => hsup d') hnn hcs (fun hi m hm ha hf => by rw [hsup]; exact hi m hm ha hf)
 
 theorem getMarker_ok {s : State} {d : Denom} {m : Marker} (h : getMarkerByDenom s d = .ok m) :
     s.find d = some m := by
@@ -135,7 +142,7 @@ theorem govMarker_ok {s : State} {d : Denom} {m : Marker} (h : govMarker s d = .
 /-! ### IncreaseSupply / DecreaseSupply -/
 
 /-- effect of a bank change on balances: only `a0`'s balance of `d0` moves, by `delta` -/
-def BalDelta (b b' : Ledger) (a0 : Addr) (d0 : Denom) (delta : Int) : Prop :=
+def BalDelta (b b' : Bank) (a0 : Addr) (d0 : Denom) (delta : Int) : Prop :=
   ∀ a d', b'.bal a d' = b.bal a d' + (if a0 = a ∧ d0 = d' then delta else 0)
 
 theorem increaseSupply_spec {s s' : State} {m : Marker} {n : Int}
@@ -153,7 +160,7 @@ theorem increaseSupply_spec {s s' : State} {m : Marker} {n : Int}
     refine ⟨?_, hmax', adjust_supply hb', ?_⟩
     · exact Post.of_set_bank rfl
         (fun m0 hm0 => by rw [hm] at hm0; cases hm0; exact status_le_refl _)
-        (fun d' hd' => adjust_supply_ne hb' hd') (adjust_nonneg hb')
+        (fun d' hd' => adjust_supply_ne hb' hd') (adjust_nonneg hb') (adjust_cons hb')
         (fun _ _ _ => (adjust_supply hb').symm)
         (fun hdes => Or.inl (fun m0 hm0 => by rw [hm] at hm0; cases hm0; exact hdes))
     · intro a d'
@@ -163,7 +170,7 @@ theorem increaseSupply_spec {s s' : State} {m : Marker} {n : Int}
   · simp only [hf, Bool.false_eq_true, if_false, pure_ok] at hs1
     subst hs1
     refine ⟨?_, hmax', adjust_supply hb, ?_⟩
-    · exact Post.of_bank (fun d' hd' => adjust_supply_ne hb hd') (adjust_nonneg hb)
+    · exact Post.of_bank (fun d' hd' => adjust_supply_ne hb hd') (adjust_nonneg hb) (adjust_cons hb)
         (fun _ m0 hm0 _ hfx => by rw [hm] at hm0; cases hm0; exact absurd hfx hf)
     · intro a d'
       have := adjust_bal hb a d'
@@ -188,7 +195,7 @@ theorem decreaseSupply_spec {s s' : State} {m : Marker} {n : Int}
       refine ⟨?_, hesc', adjust_supply hb', ?_⟩
       · exact Post.of_set_bank rfl
           (fun m0 hm0 => by rw [hm] at hm0; cases hm0; exact status_le_refl _)
-          (fun d' hd' => adjust_supply_ne hb' hd') (adjust_nonneg hb')
+          (fun d' hd' => adjust_supply_ne hb' hd') (adjust_nonneg hb') (adjust_cons hb')
           (fun _ _ _ => (adjust_supply hb').symm)
           (fun hdes => Or.inl (fun m0 hm0 => by rw [hm] at hm0; cases hm0; exact hdes))
       · intro a d'
@@ -202,7 +209,7 @@ theorem decreaseSupply_spec {s s' : State} {m : Marker} {n : Int}
     · rename_i b hb
       cases h
       refine ⟨?_, hesc', adjust_supply hb, ?_⟩
-      · exact Post.of_bank (fun d' hd' => adjust_supply_ne hb hd') (adjust_nonneg hb)
+      · exact Post.of_bank (fun d' hd' => adjust_supply_ne hb hd') (adjust_nonneg hb) (adjust_cons hb)
           (fun _ m0 hm0 _ hfx => by rw [hm] at hm0; cases hm0; exact absurd hfx hf)
       · intro a d'
         have := adjust_bal hb a d'
